@@ -59,14 +59,14 @@ theorem remOp_eq (c : Ctx) (x y : Dec)
     remOp c x y =
       if c.prec < ndigits (a / b) then
         { d := decNaN, fl := Cond.cDivImpossible, err := goError c.traps Cond.cDivImpossible }
-      else finish c (ctxRound c { form := .finite, neg := x.neg, exp := s, coeff := a % b }) := by
+      else finish c (ctxRoundFin c { form := .finite, neg := x.neg, exp := s, coeff := a % b }) := by
   unfold remOp
   simp only [shouldSetAsNaN_finite x y hx hy, hx, hy, Dec.isZero, hu]
   by_cases h : c.prec < ndigits (a / b)
   · have : ((ndigits (a / b) : Nat) : Int) > (c.prec : Int) := by omega
     simp [h, this, hy0]
   · have : ¬ ((ndigits (a / b) : Nat) : Int) > (c.prec : Int) := by omega
-    simp [h, this, hy0]
+    simp [h, this, hy0, ctxRound_finite]
 
 /-- a delivered outcome raised no system-limit flag -/
 theorem noSys_of_delivered (t fl : Cond) (h : Delivered (goError t fl)) : NoSys fl := by
@@ -152,15 +152,15 @@ theorem setExponent_inexact (c : Ctx) (hc : c.WF) (d : Dec) (hf : d.form = .fini
         simp [h5, h5', hres, seFinish_inexact, Nat.mod_one]
 
 theorem ctxRound_inexact (c : Ctx) (hc : c.WF) (d : Dec) (hf : d.form = .finite)
-    (hnd : ndigits d.coeff ≤ c.prec) (hns : NoSys (ctxRound c d).2) :
-    (ctxRound c d).2.inexact = false ↔
+    (hnd : ndigits d.coeff ≤ c.prec) (hns : NoSys (ctxRoundFin c d).2) :
+    (ctxRoundFin c d).2.inexact = false ↔
       (d.coeff % 10 ^ (c.emin - (c.prec : Int) + 1 - d.exp).toNat = 0 ∧
         (d.coeff = 0 ∨ d.exp + (ndigits d.coeff : Int) - 1 ≤ c.emax)) := by
   have hp0 : (c.prec == 0) = false := by have := hc.1; simp; omega
   have hdiff : ¬ ((ndigits d.coeff : Int) - (c.prec : Int) > 0) := by omega
   have hs1 : sumInts [d.exp] = d.exp := by simp [sumInts]
   have hs2 : sumInts [d.exp, 0] = d.exp := by simp [sumInts]
-  unfold ctxRound roundX at hns ⊢
+  unfold ctxRoundFin roundXFin at hns ⊢
   simp only [hp0, Bool.and_false, Bool.false_eq_true, if_false, hdiff] at hns ⊢
   split
   · rename_i hsub
